@@ -109,6 +109,13 @@ func runIsolated(worlds []*World, cases []RejectCase) ([]childResult, error) {
 		return nil, err
 	}
 	f.Close()
+	// directories of the file-system cases live under one root that is removed afterwards, also
+	// when a child died in the middle of a case
+	fsRoot, err := os.MkdirTemp(scratchRoot(), "c12-iso-")
+	if err != nil {
+		return nil, err
+	}
+	defer os.RemoveAll(fsRoot)
 	results := make([]childResult, len(cases))
 	self, err := os.Executable()
 	if err != nil {
@@ -126,7 +133,7 @@ func runIsolated(worlds []*World, cases []RejectCase) ([]childResult, error) {
 	}
 	for start < len(cases) && deaths < 3 {
 		cmd := exec.Command(self)
-		cmd.Env = append(os.Environ(), "VERIF_CHILD=c12-cases", "C12_JOB="+f.Name(), "C12_START="+strconv.Itoa(start), "VERIF_FRAG=", "GOTRACEBACK=single")
+		cmd.Env = append(os.Environ(), "VERIF_CHILD=c12-cases", "C12_JOB="+f.Name(), "C12_START="+strconv.Itoa(start), "C12_FSROOT="+fsRoot, "VERIF_FRAG=", "GOTRACEBACK=single")
 		var stdout, stderr bytes.Buffer
 		cmd.Stdout, cmd.Stderr = &stdout, &stderr
 		done := make(chan error, 1)
